@@ -276,3 +276,25 @@ def run_variant_key(P, rep, rule="R-VARIANTKEY"):
             rep.ok(rule, site, P.where(fn), "`name` unused (or forwarded as `name`)")
     if n == 0:
         rep.anchor_missing(rule, "serialize_*_variant methods")
+
+
+# ---------------------------------------------------------------------------------------
+# R-CHARBYTES: the serde char bridge never measures a char in bytes
+
+def run_char_bridge(P, rep, rule="R-CHARBYTES"):
+    """serialize_char / deserialize_char of the model (de)serializers: no `str::len` (a byte length): every char serialize_char can
+    write — also a multi-byte one — must be accepted back."""
+    n = 0
+    for fn in sorted(P.fns.values(), key=lambda f: f.id):
+        if not (fn.crate == "liquid_core" and fn.item_name in ("serialize_char", "deserialize_char") and "/model/" in fn.file):
+            continue
+        n += 1
+        site = "%s::%s" % (P.tstr(fn.crate, fn.impl["self"]).rsplit("::", 1)[-1] if fn.impl else "?", fn.item_name)
+        bad = [t for bi, t in P.calls(fn) if t.get("f") and t["f"]["id"].rsplit("::", 1)[1] == "len" and
+               ("str" in t["f"]["name"] or "String" in t["f"]["name"] or "kstring" in t["f"]["name"].lower())]
+        if bad:
+            rep.viol(rule, site, P.where(fn, bad[0]["line"]), "a byte length (`%s`) decides how a char is converted: multi-byte characters are treated differently from ASCII" % bad[0]["f"]["name"])
+        else:
+            rep.ok(rule, site, P.where(fn), "no byte-length test")
+    if n == 0:
+        rep.anchor_missing(rule, "serialize_char/deserialize_char")
